@@ -132,6 +132,9 @@ func c12Subjects() []c12Subject {
 type c12Step struct {
 	Val    string `json:"val"`
 	Remote bool   `json:"remote"`
+	// GetCB: the value is not written but supplied by an application read callback (OnValueGet) when the value is
+	// read, locally (Remote false: the typed getter) or by a controller (Remote true)
+	GetCB bool `json:"getcb,omitempty"`
 }
 type c12Case struct {
 	Subject string    `json:"subject"`
@@ -161,8 +164,21 @@ func c12Exec(c *fw.Ctx, sub c12Subject, steps []c12Step, vals map[string]interfa
 		}
 		prevNil := ch.Value == nil
 		var upd interface{}
+		if st.GetCB {
+			mode = "getcb-" + mode
+		}
 		if p := guard(func() {
-			if st.Remote {
+			if st.GetCB {
+				ch.OnValueGet(func() interface{} { return v })
+				defer ch.OnValueGet(nil)
+				if st.Remote {
+					ch.GetValueFromConnection(nullConn{})
+				} else if !ch.IsReadable() || prevNil {
+					ch.GetValue() // no value stored so far (no read permission, or no default): the typed getter has nothing to convert
+				} else if _, err := catalog.TypedGet(obj); err != nil {
+					panic(err)
+				}
+			} else if st.Remote {
 				ch.UpdateValueFromConnection(v, nullConn{})
 			} else {
 				ch.UpdateValue(v)
@@ -308,10 +324,16 @@ func c12Run(c *fw.Ctx) {
 		}
 		var events []c12Step
 		for _, l := range labels {
-			events = append(events, c12Step{l, false}, c12Step{l, true})
+			events = append(events, c12Step{Val: l}, c12Step{Val: l, Remote: true})
 		}
 		depth := 2
 		key := c12ClassKey(ch)
+		// values supplied by a read callback: every value once per behaviour class, six values for the other constructors
+		for i, l := range labels {
+			if !seenClass[key] || i%8 == 0 || strings.HasPrefix(l, "m") {
+				events = append(events, c12Step{Val: l, GetCB: true}, c12Step{Val: l, Remote: true, GetCB: true})
+			}
+		}
 		if c.Thorough() && !seenClass[key] {
 			depth = 3 // depth 3 once per behaviour class (format, bounds, default type, permissions)
 		}
@@ -373,7 +395,7 @@ func init() {
 	fw.Register(&fw.Check{
 		ID:          "C12",
 		Level:       "model_checking",
-		Rule:        "every characteristic constructor found in /repo plus 16 generic constructor × format × bounds configurations; every update sequence of length ≤2 (thorough: ≤3 once per behaviour class = (format, min, max, default type, permissions)) over ≈40 JSON-like values (numbers of every magnitude and sign, numeric / NaN / Inf strings, booleans, null, arrays, objects, the constructor's own min−1/min/max/max+1), each applied locally or from a connection; plus, for every constructor with declared bounds, two live instances (one with narrowed bounds) updated alternately; after every update: no panic, stored value has the Go type of the format, is finite and within declared bounds, typed getter and JSON encoding succeed. states = executed sequences, distinct_nontrivial = distinct (format, stored Go type) classes",
+		Rule:        "every characteristic constructor found in /repo plus 16 generic constructor × format × bounds configurations; every update sequence of length ≤2 (thorough: ≤3 once per behaviour class = (format, min, max, default type, permissions)) over ≈40 JSON-like values (numbers of every magnitude and sign, numeric / NaN / Inf strings, booleans, null, arrays, objects, the constructor's own min−1/min/max/max+1), each applied locally or from a connection, or supplied by an application read callback when the value is read locally (typed getter) or by a controller; plus, for every constructor with declared bounds, two live instances (one with narrowed bounds) updated alternately; after every update: no panic, stored value has the Go type of the format, is finite and within declared bounds, typed getter and JSON encoding succeed. states = executed sequences, distinct_nontrivial = distinct (format, stored Go type) classes",
 		Run:         c12Run,
 		Replay:      c12Replay,
 		Budget:      func(string) time.Duration { return 25 * time.Minute },
